@@ -36,7 +36,7 @@ CHECKS = {
    note="Oracle independent of resolvo."),
  "C08": dict(engine=E1, cat="model_checking", ref="DESIGN.md §3 C08",
    technique="exhaustive universe enumeration; brute-force existence of a model containing all first-ranked direct candidates",
-   text="For every case whose root requirements are single version sets: if brute force finds a valid selection containing the first-ranked candidate of every root requirement, the solution must contain them all. Families include F1' (4x2), the interference families F8/F8b and the late-reveal family F10 under per-package hint patterns, so that learning, backjumps past the root decisions and eager encoding of undecided solvables occur; F8 (hints as-is/All) and F8b (every subset of hinted packages) are also run under completion orders of the controlled executor.",
+   text="For every case whose root requirements are single version sets: if brute force finds a valid selection containing the first-ranked candidate of every root requirement, the solution must contain them all. Families include F1' (4x2), the interference families F8/F8b, the late-reveal family F10 under per-package hint patterns and F14 (a candidate of a package with 3-4 candidates revealed after another one was decided: helper literals of the at-most-one encoding in conflict clauses), so that learning, backjumps past the root decisions and eager encoding of undecided solvables occur; F8 (hints as-is/All) and F8b (every subset of hinted packages) are also run under completion orders of the controlled executor.",
    note=""),
  "C09": dict(engine=E1, cat="model_checking", ref="DESIGN.md §3 C09",
    technique="exhaustive universe enumeration; provider call log walked against causality rules",
@@ -64,7 +64,7 @@ CHECKS = {
    note="Inclusion rule evaluated for the first soft solvable and for later soft solvables that are independent of all others (no shared reachable package); dependent later ones are only judged by validity."),
  "C15": dict(engine=E1, cat="model_checking", ref="DESIGN.md §3 C15",
    technique="enumeration of candidate counts n<=N, all pairs, all discovery shapes; at-most-one encoding certified from the clause dump",
-   text="One package with n candidates for every n <= 17 (quick) / 130 (thorough); every discovery shape of the menu (all at once, every arrival permutation for n <= 5, identity/reverse/interleaved/rotations above, blocks, two-phase at the split points, discovery under decisions that are later reverted, candidates that are false when a lazily fetched requirer reveals them, overlapping / growing / repeated revelations, wanted candidates listed first); every pair must be Unsolvable, every single candidate selectable, also when the same problem is solved a second time on the same solver; the dumped forbid clauses (of both solves) must be exactly an at-most-one.",
+   text="One package with n candidates for every n <= 17 (quick) / 130 (thorough); every discovery shape of the menu (all at once, every arrival permutation for n <= 5, identity/reverse/interleaved/rotations above, blocks, two-phase at the split points, discovery under decisions that are later reverted, candidates that are false when a lazily fetched requirer reveals them, overlapping / growing / repeated revelations, wanted candidates listed first, the second wanted candidate forced through non-singleton requirements next to a known candidate); every pair must be Unsolvable, every single candidate selectable, also when the same problem is solved a second time on the same solver; the dumped forbid clauses (of both solves) must be exactly an at-most-one.",
    note="Above n = 40 only pairs touching a power-of-two neighbourhood or the ends are enumerated (counted)."),
  "C16": dict(engine="E4 operation-sequence explorer", cat="model_checking", ref="DESIGN.md §3 C16",
    technique="universe enumeration x capture seeds x serde round trip x add_package_requirement histories, compared with brute force on the live universe",
@@ -72,7 +72,7 @@ CHECKS = {
    note="Problems with union root requirements are not expressible through from_provider's seeds."),
  "C18": dict(engine="E4 operation-sequence explorer", cat="model_checking", ref="DESIGN.md §3 C18",
    technique="BFS over Pool interning histories from pre-filled start states with canonical-state dedup vs reference maps",
-   text="Breadth-first search over intern_* histories (depth 4 quick / 6 thorough) from pools pre-filled with 0/126/127/128/255/256 items per arena (some with the alphabet's package names interned already), plus every sequence of length 2 from pools holding 128*128-1 items per arena; after every operation every id ever returned is re-resolved and must yield the same content at the same address; ids dense and stable. Because the canonical form is derived from the reference model, every sequence up to depth 4 (quick) / 5 (thorough) from prefill 0 and 127 is additionally enumerated without any state merging. Thorough adds a supplementary miri replay of a few histories (not deciding).",
+   text="Breadth-first search over intern_* histories (unions of 2, 3, 4 or 6 distinct members and with repeated members; depth 4 quick / 6 thorough) from pools pre-filled with 0/126/127/128/255/256 items per arena (some with the alphabet's package names interned already), plus every sequence of length 2 from pools holding 128*128-1 items per arena; after every operation every id ever returned is re-resolved and must yield the same content at the same address; ids dense and stable. Because the canonical form is derived from the reference model, every sequence up to depth 4 (quick) / 5 (thorough) from prefill 0 and 127 is additionally enumerated without any state merging. Thorough adds a supplementary miri replay of a few histories (not deciding).",
    note="Address stability observed through safe code (re-resolution)."),
  "C19": dict(engine="E4 operation-sequence explorer", cat="model_checking", ref="DESIGN.md §3 C19",
    technique="BFS over Mapping insert/unset histories with canonical-state dedup vs BTreeMap, incl. serde round trip",
